@@ -151,12 +151,13 @@ Lemma vp8_header_bridge bs w h :
 Proof.
   intros Hb. unfold parse_vp8_header, G.vp8_header, VP8FrameHeaderSize.
   destruct bs as [|b0 [|b1 [|b2 [|b3 [|b4 [|b5 [|b6 [|b7 [|b8 [|b9 tl]]]]]]]]]];
-    try (split; [|discriminate]; destruct (Z.ltb_spec _ 10) as [|Hl]; [discriminate|];
-         exfalso; unfold len in Hl; cbn [length] in Hl; lia).
+    try (match goal with |- context [len ?l <? 10] =>
+           destruct (Z.ltb_spec (len l) 10) as [|Hl];
+           [split; discriminate|exfalso; unfold len in Hl; cbn [length] in Hl; lia] end).
   destruct (Z.ltb_spec (len (b0 :: b1 :: b2 :: b3 :: b4 :: b5 :: b6 :: b7 :: b8 :: b9 :: tl)) 10) as [Hl|_];
     [unfold len in Hl; cbn [length] in Hl; lia|].
   unfold slice. cbn [length].
-  destruct (Z.leb_spec 10 (Z.of_nat (S (S (S (S (S (S (S (S (S (S (length tl)))))))))))); [|lia].
+  match goal with |- context [10 <=? ?x] => destruct (Z.leb_spec 10 x); [|lia] end.
   change ((0 <=? 0) && (0 <=? 10) && true) with true. cbv iota.
   change (Z.to_nat (10 - 0)) with 10%nat. change (Z.to_nat 0) with 0%nat. cbn [skipn firstn bind].
   assert (Hby : is_byte b0 /\ is_byte b1 /\ is_byte b2 /\ is_byte b3 /\ is_byte b4 /\ is_byte b5).
@@ -174,7 +175,7 @@ Proof.
   destruct (Z.eqb_spec (65536 * b3 + 256 * b4 + b5) 10289450) as [Es|Es]; cbn [negb].
   - assert (b3 = 157 /\ b4 = 1 /\ b5 = 42) as (-> & -> & ->) by lia. cbn [Z.eqb Pos.eqb andb].
     destruct (Z.eqb_spec w' 0), (Z.eqb_spec h' 0), (Z.leb_spec 1 w'), (Z.leb_spec 1 h'); try lia;
-      cbn [orb andb]; split; intros H; try discriminate; congruence.
+      cbn [orb andb]; split; intros Hq; try discriminate; congruence.
   - split; [discriminate|].
     destruct (Z.eqb_spec b3 157), (Z.eqb_spec b4 1), (Z.eqb_spec b5 42); cbn [andb]; try discriminate. lia.
 Qed.
@@ -184,12 +185,13 @@ Lemma vp8l_header_bridge bs w h a :
 Proof.
   intros Hb. unfold parse_vp8l_header, G.vp8l_header, VP8LFrameHeaderSize, VP8LMagicByte.
   destruct bs as [|b0 [|b1 [|b2 [|b3 [|b4 tl]]]]];
-    try (split; [|discriminate]; destruct (Z.ltb_spec _ 5) as [|Hl]; [discriminate|];
-         exfalso; unfold len in Hl; cbn [length] in Hl; lia).
+    try (match goal with |- context [len ?l <? 5] =>
+           destruct (Z.ltb_spec (len l) 5) as [|Hl];
+           [split; discriminate|exfalso; unfold len in Hl; cbn [length] in Hl; lia] end).
   destruct (Z.ltb_spec (len (b0 :: b1 :: b2 :: b3 :: b4 :: tl)) 5) as [Hl|_];
     [unfold len in Hl; cbn [length] in Hl; lia|].
   unfold slice. cbn [length].
-  destruct (Z.leb_spec 5 (Z.of_nat (S (S (S (S (S (length tl))))))); [|lia].
+  match goal with |- context [5 <=? ?x] => destruct (Z.leb_spec 5 x); [|lia] end.
   change ((0 <=? 0) && (0 <=? 5) && true) with true. cbv iota.
   change (Z.to_nat (5 - 0)) with 5%nat. change (Z.to_nat 0) with 0%nat. cbn [skipn firstn bind].
   assert (Hby : is_byte b1 /\ is_byte b2 /\ is_byte b3 /\ is_byte b4) by (inv_bytes; auto 10).
@@ -202,7 +204,7 @@ Proof.
     [|split; discriminate].
   assert (Hwn : (bits mod 16384 + 1 =? 0) = false) by lia.
   assert (Hhn : ((bits / 16384) mod 16384 + 1 =? 0) = false) by lia.
-  rewrite Hwn, Hhn. cbn [orb]. split; intros H; congruence.
+  rewrite Hwn, Hhn. cbn [orb]. split; intros Hq; congruence.
 Qed.
 
 Lemma image_dims_bridge id bs w h a :
@@ -217,4 +219,403 @@ Proof.
   - destruct (Z.eqb_spec id FourCCVP8) as [->|]; [|discriminate].
     destruct (parse_vp8_header bs) as [[w' h']|e|] eqn:E; try discriminate. intros [= -> -> <-].
     right. split; [reflexivity|]. split; [reflexivity|]. apply vp8_header_bridge; assumption.
+Qed.
+
+(** ** Flags: testbit / land (ParserSpec) vs div / mod (RiffGrammar) on a byte *)
+Lemma flag_bits_bridge f : 0 <= f < 256 ->
+  Z.testbit f 5 = negb ((f / 32) mod 2 =? 0) /\ Z.testbit f 4 = negb ((f / 16) mod 2 =? 0) /\
+  Z.testbit f 3 = negb ((f / 8) mod 2 =? 0) /\ Z.testbit f 2 = negb ((f / 4) mod 2 =? 0) /\
+  Z.testbit f 1 = negb ((f / 2) mod 2 =? 0) /\
+  (Z.land f 195 =? 0) = ((f mod 2 =? 0) && (f / 64 =? 0) && ((f / 2) mod 2 =? 0)).
+Proof.
+  intros Hr.
+  assert (Hall : forallb (fun n => let v := Z.of_nat n in
+      Bool.eqb (Z.testbit v 5) (negb ((v / 32) mod 2 =? 0)) && Bool.eqb (Z.testbit v 4) (negb ((v / 16) mod 2 =? 0)) &&
+      Bool.eqb (Z.testbit v 3) (negb ((v / 8) mod 2 =? 0)) && Bool.eqb (Z.testbit v 2) (negb ((v / 4) mod 2 =? 0)) &&
+      Bool.eqb (Z.testbit v 1) (negb ((v / 2) mod 2 =? 0)) &&
+      Bool.eqb (Z.land v 195 =? 0) ((v mod 2 =? 0) && (v / 64 =? 0) && ((v / 2) mod 2 =? 0)))
+    (seq 0 256) = true) by (vm_compute; reflexivity).
+  rewrite forallb_forall in Hall. specialize (Hall (Z.to_nat f) ltac:(apply in_seq; lia)).
+  cbv zeta in Hall. rewrite Z2Nat.id in Hall by lia.
+  rewrite !andb_true_iff in Hall. destruct Hall as (((((H5 & H4) & H3) & H2) & H1) & H0).
+  apply eqb_prop in H5, H4, H3, H2, H1, H0. auto 10.
+Qed.
+
+Lemma forallb_bytes bs : bytes_ok bs <-> forallb (fun b => (0 <=? b) && (b <? 256)) bs = true.
+Proof.
+  unfold bytes_ok, is_byte. rewrite forallb_forall, Forall_forall.
+  split; intros H x Hx; specialize (H x Hx); lia.
+Qed.
+
+Lemma walk_payload_bytes : forall cs fuel buf,
+  bytes_ok buf -> walk fuel buf = Some cs -> Forall (fun c => bytes_ok (snd c)) cs.
+Proof.
+  induction cs as [|[id d] cs IH]; intros fuel buf Hb H; [constructor|].
+  destruct (walk_cons_inv _ _ _ _ _ Hb H) as (rest & fuel' & _ & Hw & Hr & Hd & _).
+  constructor; [exact Hd|]. apply (IH _ _ Hr Hw).
+Qed.
+
+(** The layout part of [RiffGrammar.wf], as a function of the chunk list. *)
+Definition g_layout (gcs : list G.gchunk) : bool :=
+  match gcs with
+  | (t, p) :: rest =>
+    if G.bytes_eqb t G.T_VP8X then G.ext_ok p rest
+    else if G.bytes_eqb t G.T_VP8 then
+      match rest, G.vp8_header p with [], Some _ => true | _, _ => false end
+    else if G.bytes_eqb t G.T_VP8L then
+      match rest, G.vp8l_header p with [], Some _ => true | _, _ => false end
+    else false
+  | _ => false
+  end.
+
+Lemma g_wf_unfold r0 r1 r2 r3 s0 s1 s2 s3 w0 w1 w2 w3 body :
+  G.wf (r0 :: r1 :: r2 :: r3 :: s0 :: s1 :: s2 :: s3 :: w0 :: w1 :: w2 :: w3 :: body) =
+  G.bytes_eqb [r0; r1; r2; r3] G.T_RIFF && G.bytes_eqb [w0; w1; w2; w3] G.T_WEBP &&
+  (rd32 [s0; s1; s2; s3] =? 4 + G.glen body) &&
+  forallb (fun b => (0 <=? b) && (b <? 256))
+          (r0 :: r1 :: r2 :: r3 :: s0 :: s1 :: s2 :: s3 :: w0 :: w1 :: w2 :: w3 :: body) &&
+  match G.chunks (length body) body with Some gcs => g_layout gcs | None => false end.
+Proof.
+  unfold G.wf, g_layout. destruct (G.chunks (length body) body) as [[|[t p] rest]|]; reflexivity.
+Qed.
+
+Lemma optl_conv id o : map conv (optl id o) = match o with Some d => [(le32 id, d)] | None => [] end.
+Proof. destruct o; reflexivity. Qed.
+
+Ltac tag_cmp :=
+  repeat match goal with
+         | |- context [G.bytes_eqb ?a ?b] =>
+           is_const a; is_const b;
+           let v := eval vm_compute in (G.bytes_eqb a b) in change (G.bytes_eqb a b) with v
+         end.
+Ltac gsimp :=
+  repeat (progress (cbn [app G.take_opt G.image_data is_some orb andb Bool.eqb negb]; cbv beta iota; tag_cmp)).
+
+(** still layout (ParserSpec) => layout (RiffGrammar) *)
+Lemma layout_bridge cs :
+  Forall (fun c => bytes_ok (snd c)) cs -> still_layout_ok cs = true -> g_layout (map conv cs) = true.
+Proof.
+  intros Hby H.
+  destruct tag_consts as (_ & _ & TV8 & TV8L & TX & TA & _ & _ & TI & TE & TM).
+  destruct (still_layout_inv _ H) as
+    [(id & bs & -> & Hdims)|
+     (flags & w0 & w1 & w2 & h0 & h1 & h2 & icc & alph & id & bs & exif & xmp & w & h & a &
+      -> & Hd & Hl & F5 & F3 & F2 & F4 & Halph & Hw & Hh)].
+  - destruct (image_dims id bs) as [[[w h] a]|] eqn:Ed; [|discriminate].
+    assert (Hbs : bytes_ok bs) by (inversion Hby; assumption).
+    cbn [map conv fst snd g_layout].
+    destruct (image_dims_bridge _ _ _ _ _ Hbs Ed) as [(-> & Hh)|(-> & _ & Hh)].
+    + rewrite TV8L. change (G.bytes_eqb G.T_VP8L G.T_VP8X) with false.
+      change (G.bytes_eqb G.T_VP8L G.T_VP8) with false. change (G.bytes_eqb G.T_VP8L G.T_VP8L) with true.
+      cbv iota. rewrite Hh. reflexivity.
+    + rewrite TV8. change (G.bytes_eqb G.T_VP8 G.T_VP8X) with false.
+      change (G.bytes_eqb G.T_VP8 G.T_VP8) with true. cbv iota. rewrite Hh. reflexivity.
+  - (* extended *)
+    assert (Hbp : bytes_ok [flags; 0; 0; 0; w0; w1; w2; h0; h1; h2]) by (inversion Hby; assumption).
+    assert (Hbs : bytes_ok bs).
+    { rewrite Forall_forall in Hby. apply (Hby (id, bs)). right.
+      apply in_or_app; right. apply in_or_app; right. left. reflexivity. }
+    assert (Bf : 0 <= flags < 256) by (inv_bytes; assumption).
+    destruct (flag_bits_bridge flags Bf) as (G5 & G4 & G3 & G2 & G1 & G0).
+    rewrite Hl in G0. change (0 =? 0) with true in G0. symmetry in G0. rewrite !andb_true_iff in G0.
+    destruct G0 as ((Gm & G64) & Gan).
+    destruct (header_declares_range _ _ _ _ _ (image_dims_fourcc _ _ _ _ _ Hd) Hd) as [Hwr Hhr].
+    cbn [map conv fst snd g_layout]. rewrite TX, bytes_eqb_refl.
+    rewrite !map_app. cbn [map]. rewrite !map_app, !optl_conv. unfold conv. cbn [fst snd].
+    unfold G.ext_ok. rewrite Gm, G64. change (0 =? 0) with true. cbn [andb].
+    rewrite Hw, Hh. destruct (Z.leb_spec (w * h) 4294967295); [|nia]. cbn [andb].
+    rewrite <- G5, <- G4, <- G3, <- G2, F5, F4, F3, F2.
+    assert (Gan' : negb ((flags / 2) mod 2 =? 0) = false) by (rewrite Gan; reflexivity).
+    rewrite Gan'.
+    destruct (image_dims_bridge _ _ _ _ _ Hbs Hd) as [(-> & Hhd)|(-> & -> & Hhd)].
+    + (* VP8L: no ALPH *)
+      destruct alph as [al|]; [specialize (Halph eq_refl); discriminate|].
+      rewrite TI, TE, TM, TV8L.
+      destruct icc, exif, xmp; gsimp; rewrite Hhd; gsimp; rewrite !Z.eqb_refl; gsimp; destruct a; reflexivity.
+    + rewrite TI, TE, TM, TV8, TA. rewrite orb_false_r.
+      destruct icc, alph, exif, xmp; gsimp; rewrite Hhd; gsimp; rewrite !Z.eqb_refl; gsimp; reflexivity.
+Qed.
+
+(** ** ParserSpec.riff_wf => RiffGrammar.wf *)
+Theorem riff_wf_grammar file : bytes_ok file -> riff_wf file = true -> G.wf file = true.
+Proof.
+  intros Hb Hwf. unfold riff_wf in Hwf. apply andb_true_iff in Hwf. destruct Hwf as [_ Hwf].
+  destruct (riff_chunks file) as [cs|] eqn:Erc; [|discriminate].
+  destruct (riff_chunks_inv _ _ Hb Erc) as (body & Hfile & Hwalk & Hbody & Hrs).
+  pose proof (proj1 (forallb_bytes file) Hb) as Hfa.
+  pose proof (len_nonneg body) as Hl0.
+  destruct tag_consts as (TR & TW & _).
+  subst file. clear Erc Hb TR TW.
+  change (le32 FourCCRIFF) with [82; 73; 70; 70] in Hfa |- *.
+  change (le32 FourCCWEBP) with [87; 69; 66; 80] in Hfa |- *.
+  unfold le32 in Hfa |- *. cbn [app] in Hfa |- *.
+  rewrite g_wf_unfold. rewrite Hfa.
+  change (G.bytes_eqb [82; 73; 70; 70] [82; 73; 70; 70]) with true.
+  change (G.bytes_eqb [87; 69; 66; 80] [87; 69; 66; 80]) with true.
+  rewrite rd32_le32' by lia. change (G.glen body) with (len body). rewrite Z.eqb_refl. cbn [andb].
+  rewrite (chunks_of_walk _ _ _ Hbody Hwalk eq_refl).
+  apply layout_bridge; [|exact Hwf]. apply (walk_payload_bytes _ _ _ Hbody Hwalk).
+Qed.
+
+(** ** writer_output_wf: the encoder's container writer only emits files the
+    independent grammar accepts *)
+Lemma bytes_ok_le32 v : bytes_ok (le32 v). Proof. apply le32_bytes. Qed.
+
+Lemma bytes_ok_pad n : bytes_ok (pad n).
+Proof. unfold pad. destruct (n mod 2 =? 0); [constructor|]. constructor; [unfold is_byte; lia|constructor]. Qed.
+
+Lemma bytes_ok_chunk id d : bytes_ok d -> bytes_ok (chunk id d).
+Proof.
+  intros H. unfold chunk. rewrite !bytes_ok_app. repeat split; try apply le32_bytes; [exact H|apply bytes_ok_pad].
+Qed.
+
+Lemma bytes_ok_opt_chunk id d : bytes_ok d -> bytes_ok (opt_chunk id d).
+Proof. intros H. unfold opt_chunk. destruct (len d >? 0); [apply bytes_ok_chunk; exact H|constructor]. Qed.
+
+Lemma write_riff_bytes_ok fourcc bs alpha w h icc exif xmp file :
+  bytes_ok bs -> bytes_ok alpha -> bytes_ok icc -> bytes_ok exif -> bytes_ok xmp ->
+  len bs < 4294967296 - 21 ->
+  write_riff fourcc bs alpha w h icc exif xmp = Ok file -> bytes_ok file.
+Proof.
+  intros Hbs Hal Hic Hex Hxm Hl. unfold write_riff.
+  destruct ((len alpha >? 0) || (len icc >? 0) || (len exif >? 0) || (len xmp >? 0)).
+  - unfold write_riff_extended. destruct (_ >? _); [discriminate|]. intros Hf.
+    assert (E : file = le32 FourCCRIFF ++ le32 (riff_size_extended bs alpha icc exif xmp) ++ le32 FourCCWEBP ++
+                vp8x_chunk (vp8x_flags fourcc bs alpha icc exif xmp) w h ++ opt_chunk FourCCICCP icc ++
+                opt_chunk FourCCALPH alpha ++ chunk fourcc bs ++ opt_chunk FourCCEXIF exif ++ opt_chunk FourCCXMP xmp)
+      by congruence.
+    rewrite E. unfold vp8x_chunk. rewrite !bytes_ok_app.
+    repeat split; try apply le32_bytes; try apply le24_bytes;
+      try (apply bytes_ok_opt_chunk; assumption); apply bytes_ok_chunk; assumption.
+  - rewrite write_simple_eq by exact Hl. intros Hf.
+    assert (E : file = simple_file fourcc bs) by congruence. rewrite E. unfold simple_file.
+    rewrite !bytes_ok_app. repeat split; try apply le32_bytes. apply bytes_ok_chunk; assumption.
+Qed.
+
+(** For every image bitstream whose header declares w x h, ALPH payload and
+    ICC / EXIF / XMP blobs within the writer's size guard: the file written by
+    [write_riff] is accepted by [RiffGrammar.wf] (RIFF size, chunk sizes, padding,
+    order ICCP -> ALPH -> image -> EXIF -> XMP, VP8X flags = exactly the chunks
+    present incl. the VP8L alpha bit, canvas = bitstream dimensions). *)
+Theorem writer_output_wf : forall fourcc bs alpha w h icc exif xmp a,
+  writer_inputs_ok fourcc bs alpha w h icc exif xmp a ->
+  bytes_ok bs -> bytes_ok alpha -> bytes_ok icc -> bytes_ok exif -> bytes_ok xmp ->
+  exists file, write_riff fourcc bs alpha w h icc exif xmp = Ok file /\ G.wf file = true.
+Proof.
+  intros fourcc bs alpha w h icc exif xmp a Hin Hbs Hal Hic Hex Hxm.
+  destruct (metadata_roundtrip _ _ _ _ _ _ _ _ _ Hin) as (file & Hw & _ & _ & _ & _ & _ & Hwf & _).
+  exists file. split; [exact Hw|]. apply riff_wf_grammar; [|exact Hwf].
+  apply (write_riff_bytes_ok _ _ _ _ _ _ _ _ _ Hbs Hal Hic Hex Hxm (sizes_ok_simple _ _ _ _ _ (wi_sizes _ _ _ _ _ _ _ _ _ Hin)) Hw).
+Qed.
+
+(** ** RiffGrammar.wf (still) => ParserSpec.riff_wf *)
+Definition ids_ok (cs : list (Z * list Z)) : Prop :=
+  Forall (fun c => 0 <= fst c < 4294967296 /\ bytes_ok (snd c)) cs.
+
+Lemma walk_ids_ok : forall cs fuel buf, bytes_ok buf -> walk fuel buf = Some cs -> ids_ok cs.
+Proof.
+  induction cs as [|[id d] cs IH]; intros fuel buf Hb H; [constructor|].
+  destruct (walk_cons_inv _ _ _ _ _ Hb H) as (rest & fuel' & _ & Hw & Hr & Hd & Hid & _).
+  constructor; [split; assumption|]. apply (IH _ _ Hr Hw).
+Qed.
+
+Lemma g_take_opt_conv c cs :
+  0 <= c < 4294967296 -> ids_ok cs ->
+  G.take_opt (le32 c) (map conv cs) =
+  (is_some (fst (take_opt c cs)), map conv (snd (take_opt c cs))).
+Proof.
+  intros Hc Hids. destruct cs as [|[i d] cs']; [reflexivity|].
+  inversion Hids as [|? ? [Hi _] _]; subst. cbn [map conv fst snd G.take_opt take_opt] in *.
+  rewrite tag_eqb by assumption. destruct (i =? c); reflexivity.
+Qed.
+
+Definition g_is_anim (bs : list Z) : bool :=
+  match bs with
+  | _ :: _ :: _ :: _ :: _ :: _ :: _ :: _ :: _ :: _ :: _ :: _ ::
+    t0 :: t1 :: t2 :: t3 :: _ :: _ :: _ :: _ :: flags :: _ =>
+    G.bytes_eqb [t0; t1; t2; t3] G.T_VP8X && negb ((flags / 2) mod 2 =? 0)
+  | _ => false
+  end.
+
+Lemma g_image_data_conv cs1 w h alpha gcs3 :
+  ids_ok cs1 -> G.image_data (map conv cs1) = Some (w, h, alpha, gcs3) ->
+  exists alph id bs cs3 a,
+    take_opt FourCCALPH cs1 = (alph, (id, bs) :: cs3) /\ gcs3 = map conv cs3 /\
+    image_dims id bs = Some (w, h, a) /\ alpha = (is_some alph || a) /\
+    (is_some alph = true -> id = FourCCVP8).
+Proof.
+  intros Hids H. destruct tag_consts as (_ & _ & TV8 & TV8L & _ & TA & _).
+  destruct fourcc_ranges as (_ & _ & RA & _ & _ & RV8 & RV8L & _).
+  destruct cs1 as [|[t p] rest]; [discriminate|].
+  inversion Hids as [|? ? [Ht Hp] Hrest]; subst. cbn [fst snd] in Ht, Hp. cbn [map conv fst snd G.image_data] in H.
+  rewrite <- TV8L, <- TV8, <- TA in H. rewrite !tag_eqb in H by assumption.
+  destruct (Z.eqb_spec t FourCCVP8L) as [->|N1].
+  { destruct (G.vp8l_header p) as [[[w' h'] a']|] eqn:Eh; [|discriminate]. injection H as -> -> -> <-.
+    exists None, FourCCVP8L, p, rest, alpha. cbn [take_opt].
+    change (FourCCVP8L =? FourCCALPH) with false.
+    split; [reflexivity|]. split; [reflexivity|]. split.
+    - unfold image_dims. rewrite Z.eqb_refl. rewrite (proj2 (vp8l_header_bridge _ _ _ _ Hp) Eh). reflexivity.
+    - split; [reflexivity|]. cbn. discriminate. }
+  destruct (Z.eqb_spec t FourCCVP8) as [->|N2].
+  { destruct (G.vp8_header p) as [[w' h']|] eqn:Eh; [|discriminate]. injection H as -> -> <- <-.
+    exists None, FourCCVP8, p, rest, false. cbn [take_opt].
+    change (FourCCVP8 =? FourCCALPH) with false.
+    split; [reflexivity|]. split; [reflexivity|]. split.
+    - unfold image_dims. change (FourCCVP8 =? FourCCVP8L) with false. rewrite Z.eqb_refl.
+      rewrite (proj2 (vp8_header_bridge _ _ _ Hp) Eh). reflexivity.
+    - split; [reflexivity|]. cbn. discriminate. }
+  destruct (Z.eqb_spec t FourCCALPH) as [->|N3]; [|discriminate].
+  destruct rest as [|[t2 p2] rest2]; [discriminate|].
+  inversion Hrest as [|? ? [Ht2 Hp2] _]; subst. cbn [fst snd] in Ht2, Hp2. cbn [map conv fst snd] in H.
+  rewrite tag_eqb in H by assumption.
+  destruct (Z.eqb_spec t2 FourCCVP8) as [->|]; [|discriminate].
+  destruct (G.vp8_header p2) as [[w' h']|] eqn:Eh; [|discriminate]. injection H as -> -> <- <-.
+  exists (Some p), FourCCVP8, p2, rest2, false. cbn [take_opt]. rewrite Z.eqb_refl.
+  split; [reflexivity|]. split; [reflexivity|]. split.
+  - unfold image_dims. change (FourCCVP8 =? FourCCVP8L) with false. rewrite Z.eqb_refl.
+    rewrite (proj2 (vp8_header_bridge _ _ _ Hp2) Eh). reflexivity.
+  - split; reflexivity.
+Qed.
+
+Lemma ids_ok_take_opt c cs : ids_ok cs -> ids_ok (snd (take_opt c cs)).
+Proof.
+  intros H. destruct cs as [|[i d] cs']; [exact H|]. cbn [take_opt].
+  destruct (i =? c); cbn [snd]; [inversion H; assumption|exact H].
+Qed.
+
+Lemma map_conv_nil cs : map conv cs = [] -> cs = [].
+Proof. destruct cs; [reflexivity|discriminate]. Qed.
+
+Definition cs_is_anim (cs : list (Z * list Z)) : bool :=
+  match cs with
+  | (x, flags :: _) :: _ => (x =? FourCCVP8X) && negb ((flags / 2) mod 2 =? 0)
+  | _ => false
+  end.
+
+Lemma layout_bridge_rev cs :
+  ids_ok cs -> g_layout (map conv cs) = true -> cs_is_anim cs = false -> still_layout_ok cs = true.
+Proof.
+  intros Hids H Hna.
+  destruct tag_consts as (_ & _ & TV8 & TV8L & TX & _ & _ & _ & TI & TE & TM).
+  destruct fourcc_ranges as (RX & RI & _ & RE & RM & RV8 & RV8L & _).
+  destruct cs as [|[x p] rest]; [discriminate|].
+  inversion Hids as [|? ? [Hx Hp] Hrest]; subst. cbn [fst snd] in Hx, Hp.
+  cbn [map conv fst snd g_layout] in H.
+  rewrite <- TX, <- TV8, <- TV8L in H. rewrite !tag_eqb in H by assumption.
+  destruct (Z.eqb_spec x FourCCVP8X) as [->|NX].
+  2:{ (* simple layouts *)
+    destruct (Z.eqb_spec x FourCCVP8) as [->|N8].
+    - destruct (map conv rest) eqn:Er; [|discriminate]. apply map_conv_nil in Er. subst rest.
+      destruct (G.vp8_header p) as [[w h]|] eqn:Eh; [|discriminate].
+      rewrite still_layout_single. unfold image_dims. change (FourCCVP8 =? FourCCVP8L) with false.
+      rewrite Z.eqb_refl. rewrite (proj2 (vp8_header_bridge _ _ _ Hp) Eh). reflexivity.
+    - destruct (Z.eqb_spec x FourCCVP8L) as [->|]; [|discriminate].
+      destruct (map conv rest) eqn:Er; [|discriminate]. apply map_conv_nil in Er. subst rest.
+      destruct (G.vp8l_header p) as [[[w h] a]|] eqn:Eh; [|discriminate].
+      rewrite still_layout_single. unfold image_dims. rewrite Z.eqb_refl.
+      rewrite (proj2 (vp8l_header_bridge _ _ _ _ Hp) Eh). reflexivity. }
+  (* extended *)
+  unfold G.ext_ok in H. cbv zeta in H.
+  destruct p as [|flags [|r1 [|r2 [|r3 [|w0 [|w1 [|w2 [|h0 [|h1 [|h2 [|? ?]]]]]]]]]]]; try discriminate.
+  cbn [cs_is_anim] in Hna. rewrite Z.eqb_refl in Hna. cbn [andb] in Hna.
+  rewrite <- TI, <- TE, <- TM in H.
+  rewrite (g_take_opt_conv FourCCICCP rest RI Hrest) in H.
+  destruct (take_opt FourCCICCP rest) as [icc rest1] eqn:E1. cbn [fst snd] in H.
+  pose proof (ids_ok_take_opt FourCCICCP rest Hrest) as Hr1. rewrite E1 in Hr1. cbn [snd] in Hr1.
+  rewrite Hna in H.
+  rewrite !andb_true_iff in H.
+  destruct H as ((((((Hm & H64) & Hr1z) & Hr2z) & Hr3z) & Harea) & (Hicc & Hstill)).
+  destruct (G.image_data (map conv rest1)) as [[[[w h] alpha] gcs3]|] eqn:Eim; [|discriminate].
+  destruct (g_image_data_conv _ _ _ _ _ Hr1 Eim) as (alph & id & bs & cs3 & a & E2 & -> & Hd & -> & Halph).
+  assert (Hr3' : ids_ok cs3).
+  { pose proof (ids_ok_take_opt FourCCALPH rest1 Hr1) as Hq. rewrite E2 in Hq. cbn [snd] in Hq.
+    inversion Hq; assumption. }
+  rewrite (g_take_opt_conv FourCCEXIF cs3 RE Hr3') in Hstill.
+  destruct (take_opt FourCCEXIF cs3) as [exif cs4] eqn:E3. cbn [fst snd] in Hstill.
+  pose proof (ids_ok_take_opt FourCCEXIF cs3 Hr3') as Hr4. rewrite E3 in Hr4. cbn [snd] in Hr4.
+  rewrite (g_take_opt_conv FourCCXMP cs4 RM Hr4) in Hstill.
+  destruct (take_opt FourCCXMP cs4) as [xmp cs5] eqn:E4. cbn [fst snd] in Hstill.
+  rewrite !andb_true_iff in Hstill.
+  destruct Hstill as (((Hw & Hh) & Halpha) & ((Hexif & Hxmp) & Hend)).
+  destruct (map conv cs5) eqn:E5; [|discriminate]. apply map_conv_nil in E5. subst cs5.
+  apply Z.eqb_eq in Hm, H64, Hr1z, Hr2z, Hr3z, Hw, Hh. apply eqb_prop in Hicc, Halpha, Hexif, Hxmp.
+  subst r1 r2 r3.
+  assert (Bf : 0 <= flags < 256) by (inv_bytes; assumption).
+  destruct (flag_bits_bridge flags Bf) as (G5 & G4 & G3 & G2 & G1 & G0).
+  apply negb_false_iff in Hna.
+  rewrite Hm, H64 in G0. rewrite Hna in G0. cbn [Z.eqb andb] in G0.
+  (* rest is not empty: it contains the image chunk *)
+  destruct rest as [|c2 rest2].
+  { cbn in E1. injection E1 as <- <-. cbn in E2. discriminate. }
+  unfold still_layout_ok. rewrite E1, E2, E3, E4, Hd.
+  rewrite Z.eqb_refl, G0, G5, G4, G3, G2. cbn [Z.eqb andb].
+  rewrite <- Hicc, <- Halpha, <- Hexif, <- Hxmp. rewrite !eqb_reflx.
+  rewrite Hw, Hh, !Z.eqb_refl. cbn [andb].
+  destruct (is_some alph) eqn:Eal; cbn [negb orb]; [|reflexivity].
+  rewrite (Halph eq_refl). reflexivity.
+Qed.
+
+Lemma walk_even : forall fuel buf cs, walk fuel buf = Some cs -> len buf mod 2 = 0.
+Proof.
+  induction fuel as [|fuel IH]; intros buf cs H.
+  - destruct buf; [reflexivity|discriminate].
+  - destruct buf as [|a0 buf]; [reflexivity|].
+    destruct buf as [|a1 [|a2 [|a3 [|s0 [|s1 [|s2 [|s3 body]]]]]]]; try (cbn in H; discriminate).
+    cbn [walk] in H. remember (rd32 [s0; s1; s2; s3]) as sz.
+    destruct (Z.leb_spec (sz + sz mod 2) (len body)) as [Hfit|]; [|discriminate].
+    match type of H with (if ?c then _ else _) = _ => destruct c eqn:Ep; [|discriminate] end.
+    destruct (walk fuel (skipn (Z.to_nat (sz + sz mod 2)) body)) as [cs'|] eqn:E; [|discriminate].
+    apply IH in E. rewrite !len_cons.
+    destruct (Z.lt_ge_cases (sz + sz mod 2) 0) as [Hneg|Hpos].
+    { replace (Z.to_nat (sz + sz mod 2)) with 0%nat in E by lia. cbn [skipn] in E. lia. }
+    assert (Hsk : len (skipn (Z.to_nat (sz + sz mod 2)) body) = len body - (sz + sz mod 2)).
+    { unfold len. rewrite skipn_length. unfold len in Hfit. lia. }
+    rewrite Hsk in E. lia.
+Qed.
+
+Lemma g_is_anim_of_file hdr x flags ptl rest :
+  length hdr = 12%nat -> 0 <= x < 4294967296 ->
+  g_is_anim (hdr ++ chunk x (flags :: ptl) ++ rest) = cs_is_anim [(x, flags :: ptl)].
+Proof.
+  intros Hh Hx. do 13 (destruct hdr as [|? hdr]; try discriminate). clear Hh.
+  destruct fourcc_ranges as (RX & _).
+  unfold chunk, le32. cbn [app g_is_anim cs_is_anim].
+  change [x mod 256; (x / 256) mod 256; (x / 65536) mod 256; (x / 16777216) mod 256] with (le32 x).
+  change G.T_VP8X with (le32 FourCCVP8X). rewrite tag_eqb by assumption. reflexivity.
+Qed.
+
+(** A [RiffGrammar.wf] file whose animation flag is clear is a well-formed still for ParserSpec. *)
+Theorem grammar_still_riff_wf file :
+  G.wf file = true -> g_is_anim file = false -> riff_wf file = true /\ bytes_ok file.
+Proof.
+  intros Hg Hna.
+  destruct file as [|r0 [|r1 [|r2 [|r3 [|s0 [|s1 [|s2 [|s3 [|w0 [|w1 [|w2 [|w3 body]]]]]]]]]]]]; try discriminate.
+  rewrite g_wf_unfold in Hg. rewrite !andb_true_iff in Hg.
+  destruct Hg as ((((HR & HW) & Hsz) & Hfa) & Hlay).
+  apply bytes_eqb_eq in HR, HW. injection HR as -> -> -> ->. injection HW as -> -> -> ->.
+  apply Z.eqb_eq in Hsz. change (G.glen body) with (len body) in Hsz.
+  apply forallb_bytes in Hfa. split; [|exact Hfa].
+  assert (Hbody : bytes_ok body).
+  { change (bytes_ok ([82; 73; 70; 70; s0; s1; s2; s3; 87; 69; 66; 80] ++ body)) in Hfa.
+    apply bytes_ok_app in Hfa. apply Hfa. }
+  destruct (G.chunks (length body) body) as [gcs|] eqn:Ech; [|discriminate].
+  destruct (walk_of_chunks _ _ _ Hbody Ech) as (cs & -> & Hwalk).
+  pose proof (walk_ids_ok _ _ _ Hbody Hwalk) as Hids.
+  pose proof (walk_even _ _ _ Hwalk) as Hev.
+  assert (Hnac : cs_is_anim cs = false).
+  { destruct cs as [|[x p] rest]; [reflexivity|].
+    destruct (walk_cons_inv _ _ _ _ _ Hbody Hwalk) as (rest' & fu & Eb & _ & _ & _ & Hx & _).
+    destruct p as [|flags ptl]; [reflexivity|].
+    assert (Hq : cs_is_anim ((x, flags :: ptl) :: rest) = cs_is_anim [(x, flags :: ptl)]) by reflexivity.
+    rewrite Hq. rewrite <- (g_is_anim_of_file [82; 73; 70; 70; s0; s1; s2; s3; 87; 69; 66; 80] x flags ptl rest' eq_refl Hx).
+    rewrite <- Eb. exact Hna. }
+  pose proof (layout_bridge_rev cs Hids Hlay Hnac) as Hsl.
+  unfold riff_wf. rewrite !len_cons.
+  destruct (Z.eqb_spec ((1 + (1 + (1 + (1 + (1 + (1 + (1 + (1 + (1 + (1 + (1 + (1 + len body)))))))))))) mod 2) 0);
+    [|lia]. cbn [andb].
+  cbn [riff_chunks]. change (rd32 [82; 73; 70; 70] =? FourCCRIFF) with true.
+  change (rd32 [87; 69; 66; 80] =? FourCCWEBP) with true. cbn [andb]. rewrite !len_cons.
+  destruct (Z.eqb_spec (rd32 [s0; s1; s2; s3])
+             (1 + (1 + (1 + (1 + (1 + (1 + (1 + (1 + (1 + (1 + (1 + (1 + len body))))))))))) - 8)); [|lia].
+  rewrite Hwalk. exact Hsl.
 Qed.
